@@ -324,6 +324,42 @@ def _copy(a, pre):
     return r
 
 
+# ---------------------------------------------------------------- C19
+RANGE_CAP = 12000
+
+
+@op("range")
+def _range(a, pre):
+    p = P()
+    iv = p.interval(pre[0], pre[1], absolute=a["abs"])
+    it = iter(iv) if a.get("mode") == "iter" else iv.range(a["unit"], a["n"])
+    vals = []
+    capped = False
+    for v in it:
+        vals.append(v)
+        if len(vals) >= RANGE_CAP:
+            capped = True
+            break
+    n = len(vals)
+    idx = sorted(set(list(range(min(n, 5))) + list(range(max(0, n - 5), n)) + [n // 2, n // 3]))
+    idx = [k for k in idx if 0 <= k < n]
+    last = vals[-1] if vals else None
+    return {"k": "range", "count": n, "capped": capped, "items": [[k, enc(vals[k])] for k in idx],
+            "end_yielded": bool(vals) and not capped and _same_point(last, iv.end)}
+
+
+def _same_point(x, y):
+    if isinstance(x, _dt.datetime):
+        return (x - y).total_seconds() == 0 if x.tzinfo is not None else x == y
+    return x == y
+
+
+@op("contains")
+def _contains(a, pre):
+    iv = P().interval(pre[0], pre[1], absolute=a["abs"])
+    return {"k": "bool", "v": bool(pre[2] in iv)}
+
+
 # ---------------------------------------------------------------- execution
 class HarnessTimeout(Exception):
     """the call did not return within OP_TIMEOUT seconds (observed as non-termination)"""
